@@ -239,7 +239,13 @@ class Engine:
                 raise Inconclusive("MergeAbort escaped")
             except Inconclusive:
                 raise
-            except Exception as e:  # an outcome of the code under test
+            except Exception as e:  # an outcome of the code under test ...
+                tb = e.__traceback__
+                while tb is not None and tb.tb_next is not None:
+                    tb = tb.tb_next
+                if tb is not None and tb.tb_frame.f_code.co_filename == __file__ and not getattr(e, "_bpv_modelled", False):
+                    # ... unless it comes out of the proxies themselves: unmodelled operation
+                    raise Unsupported(f"engine: {type(e).__name__}: {e} (pysym.py:{tb.tb_lineno})")
                 exc = e
             work.extend(self.pending)
             self.stats["paths"] += 1
@@ -365,7 +371,7 @@ class SymBool:
         return not r
 
     def __hash__(self) -> int:
-        raise TypeError("unhashable symbolic bool")
+        raise modelled(TypeError("unhashable symbolic bool"))
 
     def as_int(self) -> "SymInt":
         return _DOMAIN.from_bool(self)
@@ -451,6 +457,29 @@ def _bits_of(v: int) -> int:
     return v.bit_length() + 1
 
 
+def _mkbool(e: Any) -> Any:
+    e = z3.simplify(e)
+    if z3.is_true(e):
+        return True
+    if z3.is_false(e):
+        return False
+    return SymBool(e)
+
+
+def _mkz(e: Any) -> Any:
+    e = z3.simplify(e)
+    if z3.is_int_value(e):
+        return e.as_long()
+    return ZInt(e)
+
+
+def modelled(exc: BaseException) -> BaseException:
+    """tag an exception that the proxies raise *on behalf of* the modelled Python type (so it
+    is an outcome of the code under test, not an engine error)"""
+    exc._bpv_modelled = True  # type: ignore
+    return exc
+
+
 class BVInt(SymInt):
     """W-bit two's complement term standing for an unbounded Python int whose value is known
     to fit `bits` bits (sign bit included); `nn` = known non-negative."""
@@ -504,8 +533,10 @@ class BVInt(SymInt):
             return BVInt.const(int(o))
         return None
 
-    def _s(self) -> "BVInt":
+    def _s(self) -> Any:
         e = z3.simplify(self.e)
+        if z3.is_bv_value(e):
+            return e.as_signed_long()  # a term that folds to a numeral is a plain Python int
         self.e = e
         return self
 
@@ -581,7 +612,7 @@ class BVInt(SymInt):
         else:
             raise TypeError("shift amount")
         if k < 0:
-            raise ValueError("negative shift count")
+            raise modelled(ValueError("negative shift count"))
         return k
 
     def __lshift__(self, o: Any) -> Any:
@@ -610,7 +641,7 @@ class BVInt(SymInt):
 
     def __mod__(self, o: Any) -> Any:
         if isinstance(o, int) and not isinstance(o, bool) and o > 0:
-            return BVInt(z3.SMod(self.e, z3.BitVecVal(o, W)), _bits_of(o), True)._s()
+            return BVInt(self.e % z3.BitVecVal(o, W), _bits_of(o), True)._s()  # z3py % on BitVec = bvsmod (sign of divisor) = Python % for o > 0
         raise Unsupported("BV % by a non-constant or non-positive divisor")
 
     def __floordiv__(self, o: Any) -> Any:
@@ -632,7 +663,7 @@ class BVInt(SymInt):
         l = BVInt.lift(o)
         if l is None:
             return NotImplemented
-        return SymBool(z3.simplify(f(self.e, l.e)))
+        return _mkbool(f(self.e, l.e))
 
     def __lt__(self, o: Any) -> Any:
         return self._cmp(o, lambda a, b: a < b)
@@ -650,18 +681,18 @@ class BVInt(SymInt):
         l = BVInt.lift(o)
         if l is None:
             return False
-        return SymBool(z3.simplify(self.e == l.e))
+        return _mkbool(self.e == l.e)
 
     def __ne__(self, o: Any) -> Any:  # type: ignore
         l = BVInt.lift(o)
         if l is None:
             return True
-        return SymBool(z3.simplify(self.e != l.e))
+        return _mkbool(self.e != l.e)
 
     def __hash__(self) -> int:
         # unhashable on purpose: enum.Enum.__new__ then takes its documented O(n) search,
         # `member._value_ == value`, which forks through SymBool.__bool__.
-        raise TypeError("unhashable symbolic int (BV domain)")
+        raise modelled(TypeError("unhashable symbolic int (BV domain)"))
 
     def bit_length(self) -> Any:
         raise Unsupported("bit_length in BV domain")
@@ -718,7 +749,7 @@ class ZInt(SymInt):
         l = ZInt.lift(o)
         if l is None:
             return NotImplemented
-        return ZInt(z3.simplify(f(self.e, l)))
+        return _mkz(f(self.e, l))
 
     def __add__(self, o: Any) -> Any:
         return self._bin(o, lambda a, b: a + b)
@@ -737,7 +768,7 @@ class ZInt(SymInt):
     __rmul__ = __mul__
 
     def __neg__(self) -> Any:
-        return ZInt(z3.simplify(-self.e))
+        return _mkz((-self.e))
 
     def __pos__(self) -> Any:
         return self
@@ -752,34 +783,34 @@ class ZInt(SymInt):
         if d is None:
             return NotImplemented
         if ENGINE.branch(d == 0):
-            raise ZeroDivisionError("integer division or modulo by zero")
-        return ZInt(z3.simplify(ZInt._floordiv(self.e, d)))
+            raise modelled(ZeroDivisionError("integer division or modulo by zero"))
+        return _mkz((ZInt._floordiv(self.e, d)))
 
     def __rfloordiv__(self, o: Any) -> Any:
         n = ZInt.lift(o)
         if n is None:
             return NotImplemented
         if ENGINE.branch(self.e == 0):
-            raise ZeroDivisionError("integer division or modulo by zero")
-        return ZInt(z3.simplify(ZInt._floordiv(n, self.e)))
+            raise modelled(ZeroDivisionError("integer division or modulo by zero"))
+        return _mkz((ZInt._floordiv(n, self.e)))
 
     def __mod__(self, o: Any) -> Any:
         d = ZInt.lift(o)
         if d is None:
             return NotImplemented
         if ENGINE.branch(d == 0):
-            raise ZeroDivisionError("integer division or modulo by zero")
+            raise modelled(ZeroDivisionError("integer division or modulo by zero"))
         q = ZInt._floordiv(self.e, d)
-        return ZInt(z3.simplify(self.e - q * d))
+        return _mkz((self.e - q * d))
 
     def __rmod__(self, o: Any) -> Any:
         n = ZInt.lift(o)
         if n is None:
             return NotImplemented
         if ENGINE.branch(self.e == 0):
-            raise ZeroDivisionError("integer division or modulo by zero")
+            raise modelled(ZeroDivisionError("integer division or modulo by zero"))
         q = ZInt._floordiv(n, self.e)
-        return ZInt(z3.simplify(n - q * self.e))
+        return _mkz((n - q * self.e))
 
     def __truediv__(self, o: Any) -> Any:
         if isinstance(o, int) and not isinstance(o, bool) and o > 0 and (o & (o - 1)) == 0:
@@ -788,12 +819,12 @@ class ZInt(SymInt):
 
     def __lshift__(self, o: Any) -> Any:
         if isinstance(o, int):
-            return ZInt(z3.simplify(self.e * (1 << o)))
+            return _mkz((self.e * (1 << o)))
         raise Unsupported("symbolic shift in Z domain")
 
     def __rshift__(self, o: Any) -> Any:
         if isinstance(o, int):
-            return ZInt(z3.simplify(self.e / (1 << o)))
+            return _mkz((self.e / (1 << o)))
         raise Unsupported("symbolic shift in Z domain")
 
     def __and__(self, o: Any) -> Any:
@@ -803,13 +834,13 @@ class ZInt(SymInt):
         raise Unsupported("bitwise or in Z domain")
 
     def __abs__(self) -> Any:
-        return ZInt(z3.simplify(z3.If(self.e < 0, -self.e, self.e)))
+        return _mkz((z3.If(self.e < 0, -self.e, self.e)))
 
     def _cmp(self, o: Any, f: Callable[[Any, Any], Any]) -> Any:
         l = ZInt.lift(o)
         if l is None:
             return NotImplemented
-        return SymBool(z3.simplify(f(self.e, l)))
+        return _mkbool(f(self.e, l))
 
     def __lt__(self, o: Any) -> Any:
         return self._cmp(o, lambda a, b: a < b)
@@ -827,13 +858,13 @@ class ZInt(SymInt):
         l = ZInt.lift(o)
         if l is None:
             return False
-        return SymBool(z3.simplify(self.e == l))
+        return _mkbool(self.e == l)
 
     def __ne__(self, o: Any) -> Any:  # type: ignore
         l = ZInt.lift(o)
         if l is None:
             return True
-        return SymBool(z3.simplify(self.e != l))
+        return _mkbool(self.e != l)
 
     def __hash__(self) -> int:
         # constant hash + symbolic __eq__: real dict / set / functools.cache lookups with a
@@ -849,7 +880,7 @@ class ZInt(SymInt):
         e = z3.IntVal(80)
         for k in range(79, -1, -1):
             e = z3.If(a < 2 ** k, z3.IntVal(k), e)
-        return ZInt(z3.simplify(e))
+        return _mkz((e))
 
 
 _DOMAIN: Any = BVInt
@@ -876,7 +907,7 @@ class SymBytes:
             src = src.__index__()
         if isinstance(src, int):
             if src < 0:
-                raise ValueError("negative count")
+                raise modelled(ValueError("negative count"))
             self.cells: List[Any] = [0] * src
         elif isinstance(src, (bytes, bytearray, SymBytes, list, tuple)):
             self.cells = list(src.cells if isinstance(src, SymBytes) else src)
@@ -898,7 +929,7 @@ class SymBytes:
         try:
             return self.cells[i]
         except IndexError:
-            raise IndexError("bytearray index out of range")
+            raise modelled(IndexError("bytearray index out of range"))
 
     def __setitem__(self, i: Any, v: Any) -> None:
         i = self._idx(i)
@@ -911,15 +942,15 @@ class SymBytes:
         elif isinstance(v, SymInt):
             ok = (v >= 0) & (v <= 255)
             if not bool(ok):
-                raise ValueError("byte must be in range(0, 256)")
+                raise modelled(ValueError("byte must be in range(0, 256)"))
         elif isinstance(v, int):
             if not (0 <= v <= 255):
-                raise ValueError("byte must be in range(0, 256)")
+                raise modelled(ValueError("byte must be in range(0, 256)"))
             v = int(v)
         else:
-            raise TypeError(f"'{type(v).__name__}' object cannot be interpreted as an integer")
+            raise modelled(TypeError(f"'{type(v).__name__}' object cannot be interpreted as an integer"))
         if not (-len(self.cells) <= i < len(self.cells)):
-            raise IndexError("bytearray index out of range")
+            raise modelled(IndexError("bytearray index out of range"))
         self.cells[i] = v
 
     def __iter__(self) -> Iterator[Any]:
@@ -941,7 +972,7 @@ class SymBytes:
         return False
 
     def __hash__(self) -> int:
-        raise TypeError("unhashable type: 'bytearray'")
+        raise modelled(TypeError("unhashable type: 'bytearray'"))
 
     def __deepcopy__(self, memo: Any) -> "SymBytes":
         return SymBytes(self.cells)
@@ -991,7 +1022,7 @@ class SymDict:
     def __getitem__(self, k: Any) -> Any:
         i = self._find(k)
         if i is None:
-            raise KeyError(k)
+            raise modelled(KeyError(k))
         return self.pairs[i][1]
 
     def get(self, k: Any, d: Any = None) -> Any:
@@ -1046,7 +1077,7 @@ class sym_int(metaclass=_IntMeta):
             if ok is not True:
                 raise Unsupported("int(x / 2^k) outside 0 <= x < 2^53 (lemma L_fp does not apply)")
             ENGINE.notes.append("L_fp")
-            return ZInt(z3.simplify(n.e / x.d))
+            return _mkz((n.e / x.d))
         return int(x, *a)
 
     from_bytes = int.from_bytes
@@ -1122,7 +1153,7 @@ def _ite_val(c: SymBool, a: Any, b: Any) -> Any:
     la, lb = ZInt.lift(a), ZInt.lift(b)
     if la is None or lb is None:
         return NotImplemented
-    return ZInt(z3.simplify(z3.If(c.e, la, lb)))
+    return _mkz((z3.If(c.e, la, lb)))
 
 
 def sym_minmax(which: str) -> Callable[..., Any]:
